@@ -222,6 +222,7 @@ pub fn run(outdir: &Path, tier: &str, seed: u64, shards: usize, replay: Option<S
                     prelude: resp::scalar_prelude(&p.schema),
                     exposed: vec![],
                     custom: vec![("vars".into(), variables_expr(&m.name, &struct_name))],
+                    outer: String::new(),
                 });
                 prepared.push(Prep { op: m.operation_name.clone(), p, obs, idx });
             }
